@@ -593,11 +593,42 @@ impl World {
         self.bump("tenant_interferences");
     }
 
+    /// Right before a checked `update`, another master key with the same dimension names, the
+    /// same attribute ids and statuses but the OPPOSITE hints is updated through the same
+    /// instance: nothing of it may leak into the update under test.
+    fn tenant_update_interference(&mut self) {
+        let Ok((mut other, _)) = self.cc.setup() else { return };
+        let st = self.model.st.clone();
+        let mut attrs: Vec<(u64, String, bool, AttrM)> = vec![];
+        for (dn, d) in &st.dims {
+            let _ = if d.ordered { other.access_structure.add_hierarchy(dn.clone()) } else { other.access_structure.add_anarchy(dn.clone()) };
+            for a in &d.attrs {
+                if let Some(id) = self.tok_id.get(&a.tok) {
+                    attrs.push((*id, dn.clone(), d.ordered, a.clone()));
+                }
+            }
+        }
+        attrs.sort_by_key(|a| a.0);
+        for (_, dn, _, a) in &attrs {
+            // creation in id order reproduces the ids when there are no gaps; rank order inside a
+            // hierarchy does not matter for this purpose
+            let _ = other.access_structure.add_attribute(Self::qa(dn, &a.name), hint(!a.hybrid), None);
+            if a.disabled {
+                let _ = other.access_structure.disable_attribute(&Self::qa(dn, &a.name));
+            }
+        }
+        let _ = guarded!(self.cc.update_msk(&mut other));
+        self.bump("tenant_interferences");
+    }
+
     pub fn apply(&mut self, op: &Op, mode: Mode) -> bool {
         self.bump("ops");
         if mode == Mode::Check && self.tenant_probe {
             if let Op::Rekey(p) | Op::Prune(p) | Op::Keygen(p) = op {
                 self.tenant_interference(p);
+            }
+            if matches!(op, Op::Update) {
+                self.tenant_update_interference();
             }
         }
         let before_msk = ser(&self.msk);
@@ -693,6 +724,9 @@ impl World {
                 let usk = &mut self.usks[*k].usk;
                 let r = guarded!(self.cc.refresh_usk(&mut self.msk, usk, *keep));
                 ok = self.class(op, known, &r);
+                if known && !ok {
+                    self.fail("C04.f", format!("{op}: an issued key is refused by refresh: it can no longer follow the master key"));
+                }
                 if !known {
                     if ok {
                         self.fail("C17.f", format!("{op}: a key whose id the master key does not know was refreshed"));
@@ -1043,7 +1077,10 @@ impl World {
             self.bump("refreshability_probes");
             match r {
                 Ok(Ok(())) => {}
-                Ok(Err(e)) => self.fail("C09.r", format!("{what}: the key this call produced is refused by a following refresh(keep={keep}): {e}")),
+                Ok(Err(e)) => {
+                    self.fail("C09.r", format!("{what}: the key this call produced is refused by a following refresh(keep={keep}): {e}"));
+                    self.fail("C04.f", format!("{what}: the key this call produced can no longer be refreshed (keep={keep}): it cannot follow the master key"));
+                }
                 Err(_) => self.fail("C09.p", format!("{what}: refresh of the key this call produced panicked")),
             }
         }
